@@ -427,7 +427,8 @@ fn random_loc(rng: &mut Rng, img: &RefImage) -> Loc {
         1 if !img.labels.is_empty() => {
             let (name, idx) = rng.pick(&img.labels).clone();
             // keep clear of names the command grammar reads as integers/registers
-            if name.len() >= 2 && !name.starts_with(['b', 'B', 'o', 'O', 'x', 'X', 'r', 'R']) {
+            // (... asking the reference grammar: `r2d2`, `R1_loop` are labels, `r1`, `b10`, `x1f` are not)
+            if matches!(crate::refcmd::memory_location(&name), Ok(crate::refcmd::RLoc::Label(n, 0)) if n == name) {
                 let off = match rng.below(3) {
                     0 => 0,
                     _ => rng.range(-3, 4) as i32,
